@@ -77,6 +77,9 @@ package withstack
 //@   trusted "parser of the printed stack text (element writes into a fresh frame slice; outside the executor's subset): returns a new stack trace object, nil exactly for the empty text (a stack without frames)"
 //@   ensures (result == nil) == (trimSpace(st) == "")
 
+// (T7, pkg/errors: every frame prints at least its function name or "unknown")
+//@ axiom stack_print_nonblank: forall st errbase.StackTrace :: {sprintf1("%+v", ifaceOf(st))} len(st) > 0 ==> trimSpace(sprintf1("%+v", ifaceOf(st))) != ""
+
 //@ func convertPkgStack
 //@   props C15 C11
 //@   ensures (result == nil) == (len(st) == 0)
